@@ -157,13 +157,43 @@ def fingerprint_shape():
             if comp is None or how not in ("extend", "append"):
                 return None
             parts.append((comp, how))
+            if comp == "shots":
+                SHOTS_SRC[0] = src
     return parts
+
+
+SHOTS_SRC = [None]
+# representations of the shot specification that determine the whole shot sequence (copies included); anything else (a total, a
+# length, ...) is a projection and has to be shown injective natively or is refuted (independent seed C32_2)
+WHOLE_SHOTS = ("tuple(self.shots)", "self.shots", "tuple(self.shots.shot_vector)", "self.shots.shot_vector")
+
+
+def shots_projection_collision():
+    """two real tapes that differ only in the shot partition and hash equally, or None"""
+    specs = [20, (10, 10), (5, 15), (15, 5), (5, 5, 10), ((10, 2),), (20, 20), ((20, 2),), 40, None, 1, (1, 1)]
+    seen = {}
+    for sp in specs:
+        t = qp.tape.QuantumScript([qp.RX(0.1, wires=0)], [qp.expval(qp.Z(0))], shots=sp)
+        key = t.hash
+        for sp0, t0 in seen.get(key, []):
+            if t0.shots != t.shots:
+                return sp0, sp
+        seen.setdefault(key, []).append((sp, t))
+    return None
 
 
 def fingerprint_injective():
     parts = fingerprint_shape()
     if not parts or {c for c, _ in parts} != {"ops", "meas", "trainable", "shots"}:
         return Outcome(UNDECIDED, "ast", f"fingerprint construction not recognised: {parts}")
+    if SHOTS_SRC[0] not in WHOLE_SHOTS:
+        col = shots_projection_collision()
+        if col is not None:
+            return Outcome(REFUTED, "native", f"the fingerprint records `{SHOTS_SRC[0]}` instead of the whole shot sequence: tapes with shots "
+                           f"{col[0]!r} and {col[1]!r} hash equally", witness=dict(shots_A=repr(col[0]), shots_B=repr(col[1])),
+                           replay=dict(confirmed=True, hash_equal=True, tapes_differ=True, shots_A=repr(col[0]), shots_B=repr(col[1])))
+        return Outcome(UNDECIDED, "ast", f"shots enter the fingerprint as `{SHOTS_SRC[0]}`, not as the whole shot sequence; no collision among the probed "
+                       "shot specifications")
     # element universe: Item = H(hash of an operator) | M(hash of a measurement) | I(int) | T(tuple of ints as a sequence)
     Item = z3.Datatype("Item")
     Item.declare("H", ("h", z3.IntSort()))
